@@ -4,7 +4,7 @@ Helper lemmas are in Proofs/C04*.  Every theorem is about Model/C04 (host) and S
 constants, formats, slice lengths and reply-routing mechanism are regenerated from /repo (Gen/C04).
 `S2F` is CPython's `float(str)` (only reached when a *string* is passed for a float-typed parameter).
 -/
-import CfVerif.Proofs.C04Round
+import CfVerif.Proofs.C04Open
 namespace CfVerif.C04
 open CfVerif
 
@@ -42,7 +42,8 @@ theorem gen_set_value :
     Gen.C04.setV2Test = "self._useV2" ∧ Gen.C04.RO_ACCESS = 1 := by decide
 
 /-- the updater thread: `get`, then `acquire`, then transmit; the three lock-pattern and release-pattern slices; the status
-byte of a V2 read reply is cut out; `release()` is guarded by `try` only on the read/write path -/
+byte of a V2 read reply is cut out; `release()` is guarded by `try` only on the read/write path; the pattern is disarmed
+(`_lock_pattern = None`) on both paths when an answer is accepted -/
 theorem gen_updater :
     Gen.C04.runCalls = ["self.request_queue.get()", "self.wait_lock.acquire()",
       "self.cf.send_packet(pk, expected_reply=tuple(self._lock_pattern))", "self.cf.send_packet(pk, expected_reply=tuple(pk.data[:1]))",
@@ -52,11 +53,12 @@ theorem gen_updater :
     Gen.C04.cbStrip = ["pk.data[:2] + pk.data[3:]"] ∧
     Gen.C04.cbCalls = ["self.updated_callback(pk)", "self.wait_lock.release()", "self.updated_callback(pk)", "self.wait_lock.release()"] ∧
     Gen.C04.cbTryBodies = ["self.wait_lock.release()"] ∧
-    Gen.C04.cbCompares = ["pk.channel == READ_CHANNEL", "pk.channel == WRITE_CHANNEL", "pk.channel == READ_CHANNEL", "pk.channel != TOC_CHANNEL",
-      "self._lock_pattern == release_pattern", "pk is not None", "pk.channel == MISC_CHANNEL", "command == MISC_VALUE_UPDATED",
+    Gen.C04.cbComparesCore = ["pk.channel == READ_CHANNEL", "pk.channel == WRITE_CHANNEL", "pk.channel == READ_CHANNEL",
+      "self._lock_pattern == release_pattern", "pk.channel == MISC_CHANNEL", "command == MISC_VALUE_UPDATED",
       "self._lock_pattern == release_pattern"] ∧
+    Gen.C04.cbPatternAssigns = ["None", "None"] ∧
     Gen.C04.updaterInitPortCb = ["self.cf.add_port_callback(CRTPPort.PARAM, self._new_packet_cb)"] :=
-  ⟨rfl, rfl, gen_lens, rfl, rfl, rfl, rfl, rfl⟩
+  ⟨rfl, rfl, gen_lens, rfl, rfl, rfl, rfl, rfl, rfl⟩
 
 /-- `_param_updated`: where the index and the value are read from, and what is cached -/
 theorem gen_param_updated :
@@ -278,6 +280,75 @@ theorem reply_attribution_partial (s0 : Sys) (h0 : s0.Idle) (evs : List Ev) (s :
   simp only [List.nil_append] at hi ha
   rw [(ha ha0 hd).misc, hi.enq, expectedMisc_append_unmatched A G _ hi.rx]
 
+/-! ## Duplicated, late and stale replies: the open system
+
+`EvX` adds `inject p` to the events: the incoming-packet thread dispatches an ARBITRARY packet at an arbitrary moment - the
+second answer to a request that was retransmitted on a `needs_resending` link, an answer delayed past later traffic, garbage. -/
+
+/-- For every history of the open system: FIFO of requests as before; `_lock_pattern` is armed exactly while `wait_lock` is
+held (so an idle updater has no pattern); transmissions and releases alternate and a release only happens while handling a
+packet that carries the index (misc: command + index) armed by the outstanding request - hence every transmitted request is
+accepted as answered AT MOST ONCE, whatever is duplicated or replayed. -/
+theorem open_lock_discipline (s0 : Sys) (h0 : s0.Idle) (evs : List EvX) (s : Sys) (outs : List Out)
+    (hrun : Sys.runX S2F Variant.code s0 evs = some (s, outs)) :
+    txsOf outs ++ s.host.cur.toList ++ s.host.queue = (enqsOf outs).map Prod.fst ∧
+    (altRunM s0.dev.v2 none (obsOf outs)).isSome = true ∧
+    s.host.pattern.isSome = s.host.lockHeld := by
+  rw [code_variant] at hrun
+  have hi := runX_invO S2F _ rfl rfl evs s0 [] (InvO.init h0) s outs hrun
+  simp only [List.nil_append] at hi
+  obtain ⟨st, h1, _⟩ := hi.alt
+  exact ⟨hi.fifo, by rw [h1]; rfl, hi.lock⟩
+
+/-- ANY state: a read/write-channel packet whose index bytes are not the armed pattern changes nothing and calls nobody -/
+theorem unmatched_reply_ignored (h : Host) (p : Pkt) (hc : p.chan = 1 ∨ p.chan = 2)
+    (hne : h.pattern ≠ some (relPattern h.updV2 p)) : rx Variant.code h p = (h, [.rxd p]) :=
+  rx_unmatched Variant.code gen_misc_routing.1 gen_misc_routing.2.1 h p hc hne
+
+/-- Nothing outstanding: after ANY history of the open system, when the updater is idle every read/write-channel packet
+(duplicate, late, stale, forged) is ignored - cache, lock and callbacks untouched. -/
+theorem stale_reply_ignored_when_idle (s0 : Sys) (h0 : s0.Idle) (evs : List EvX) (s : Sys) (outs : List Out)
+    (hrun : Sys.runX S2F Variant.code s0 evs = some (s, outs)) (hidle : s.host.lockHeld = false)
+    (p : Pkt) (hc : p.chan = 1 ∨ p.chan = 2) : rx Variant.code s.host p = (s.host, [.rxd p]) := by
+  obtain ⟨_, _, hl⟩ := open_lock_discipline S2F s0 h0 evs s outs hrun
+  apply unmatched_reply_ignored s.host p hc
+  rw [hidle] at hl
+  intro hp; rw [hp] at hl; cases hl
+
+/-- Something else outstanding: after ANY history, while request `req` is outstanding a read/write-channel packet that does
+not carry `req`'s index is ignored - in particular it neither releases the updater nor reaches any callback. -/
+theorem reply_for_other_request_ignored (s0 : Sys) (h0 : s0.Idle) (evs : List EvX) (s : Sys) (outs : List Out)
+    (hrun : Sys.runX S2F Variant.code s0 evs = some (s, outs)) (req : Pkt)
+    (hout : altRunM s0.dev.v2 none (obsOf outs) = some (some req))
+    (p : Pkt) (hc : p.chan = 1 ∨ p.chan = 2) (hm : Matches s0.dev.v2 req p = false) :
+    rx Variant.code s.host p = (s.host, [.rxd p]) := by
+  rw [code_variant] at hrun
+  have hi := runX_invO S2F _ rfl rfl evs s0 [] (InvO.init h0) s outs hrun
+  simp only [List.nil_append] at hi
+  obtain ⟨st, h1, _, h3⟩ := hi.alt
+  rw [hout] at h1
+  have hpat := h3 req (Option.some.inj h1).symm
+  apply unmatched_reply_ignored s.host p hc
+  rw [hpat, hi.updV2]
+  intro heq
+  have hne3 : p.chan ≠ 3 := by rcases hc with h | h <;> omega
+  have : Matches s0.dev.v2 req p = true := by
+    unfold Matches
+    rw [if_neg hne3, Option.some.inj heq]
+    simp
+  rw [this] at hm; cases hm
+
+/-- Each update callback exactly once per answered request: in ANY state a read/write-channel packet either is ignored
+(nothing changes, no callback), or raises inside the updater's callback before anything changed, or it matched the armed
+pattern - then `_param_updated` runs exactly once (`fo` = one fan-out, `fanout_each_once`) and the updater is released, which
+by `open_lock_discipline` happens at most once per transmitted request. -/
+theorem update_callbacks_once_per_answer (h : Host) (p : Pkt) (hc : p.chan = 1 ∨ p.chan = 2) :
+    rx Variant.code h p = (h, [.rxd p]) ∨
+    (∃ e, rx Variant.code h p = (h, [.rxd p, .cbError e])) ∨
+    (h.pattern = some (relPattern h.updV2 p) ∧ ∃ h1 fo, paramUpdated h (stripStatus h.updV2 p) = .ok (h1, fo) ∧
+      rx Variant.code h p = (release h1, .rxd p :: (fo ++ [.released p]))) :=
+  rx_rw_cases Variant.code gen_misc_routing.1 gen_misc_routing.2.1 h p hc
+
 /-! ## The code before the fix (D5) and what remains after it (D5b) -/
 
 def noS2F : List Char → Except PyErr Nat := fun _ => .error .other
@@ -327,6 +398,30 @@ theorem reply_attribution_duplicates_counterexample :
       some [.misc 100 [1, 0] (.state (some (false, .int 10, none))), .misc 101 [1, 0] (.status true),
             .misc 102 [1, 0] (.state (some (true, .int 10, some (.int 1))))] ∧
     distinctAlongB noS2F Variant.code cxSys [] stateStoreState = false := by
+  decide +kernel
+
+/-- one update callback (id 7) registered for everything -/
+def cxSys7 : Sys := { cxSys with host := { cxSys.host with allCbs := [7] } }
+def runX7 (evs : List EvX) : Option (List Out × List (List UInt8) × List Out) :=
+  (Sys.runX noS2F Variant.code cxSys7 evs).map fun r =>
+    (updatesOf r.2, r.1.dev.params.map (·.value), (getValue r.1.host [1, 0] false).2)
+
+def set10 : List EvX := ([Ev.api 0 (.setValue [1, 0] (.int 10) false)] ++ pump).map EvX.ev
+/-- the answer to `set_value(p0, 10)`, delivered once more -/
+def dup10 : EvX := .inject ⟨2, [0, 0, 10]⟩
+
+/-- duplicate while idle, and while a request for ANOTHER parameter is outstanding: one callback per `set_value`, cache = device -/
+example : runX7 (set10 ++ [dup10]) = some ([.update 7 [1, 0] (.int 10)], [[10], [2], [3]], [.ret (.int 10)]) := by decide +kernel
+example : runX7 (set10 ++ [.ev (.api 0 (.setValue [1, 1] (.int 6) false)), .ev .updGet, .ev .updSend, dup10, .ev .deliver]) =
+    some ([.update 7 [1, 0] (.int 10), .update 7 [1, 1] (.int 6)], [[10], [6], [3]], [.ret (.int 10)]) := by decide +kernel
+example : Matches true ⟨2, [1, 0, 6]⟩ ⟨2, [0, 0, 10]⟩ = false := by decide
+
+/-- D5c (known finding, not repairable without sequence numbers in the protocol): a duplicate of the answer to
+`set_value(p0, 10)` arriving while `set_value(p0, 20)` is outstanding carries the same index and is accepted as ITS answer:
+the callback is told 10 again, the cache says 10 while the device has 20, and the real answer is then ignored. -/
+theorem stale_same_id_counterexample :
+    runX7 (set10 ++ [.ev (.api 0 (.setValue [1, 0] (.int 20) false)), .ev .updGet, .ev .updSend, dup10, .ev .deliver]) =
+      some ([.update 7 [1, 0] (.int 10), .update 7 [1, 0] (.int 10)], [[20], [2], [3]], [.ret (.int 10)]) := by
   decide +kernel
 
 /-! ## Non-vacuity -/
